@@ -377,7 +377,7 @@ TS = int(os.environ.get("VERIF_THOROUGH_SCALE", "3"))
 ABORT_CAP = int(os.environ.get("VERIF_ABORT_CAP", "48"))
 
 
-def run_batch(cfg, cases, shards=None, timeout=600, wrapper=None, env=None, keep_order=True, cmd=None, case_timeout=None):
+def run_batch(cfg, cases, shards=None, timeout=600, wrapper=None, env=None, keep_order=True, cmd=None, case_timeout=None, _retry=False):
     """Run cases on the runner built in configuration cfg, sharded over processes.
     Every case gets a result dict; abnormal ends are attributed to exactly one case:
     result['abort'] = {'why': 'signal'|'exit'|'timeout', ...}."""
@@ -443,6 +443,13 @@ def run_batch(cfg, cases, shards=None, timeout=600, wrapper=None, env=None, keep
             round_no += 1
     finally:
         shutil.rmtree(tmpdir, ignore_errors=True)
+    # A runner that dies with an allocation failure may have run into the address-space cap because of what the cases
+    # before it left behind (quarantined objects, allocator fragmentation): such a case is judged on a run of its own.
+    if not _retry:
+        again = [c for c in cases if "memory allocation of" in str(results.get(c["id"], {}).get("abort", {}).get("status", ""))]
+        for c in again[:32]:
+            results[c["id"]] = run_batch(cfg, [c], shards=1, timeout=timeout, wrapper=wrapper, env=env, cmd=cmd,
+                                         case_timeout=case_timeout, _retry=True)[0]
     missing = [c["id"] for c in cases if c["id"] not in results]
     if missing:
         raise Inconclusive("runner produced no result for %d cases (e.g. %s)" % (len(missing), missing[0]))
